@@ -42,7 +42,7 @@ CHECKS = {
  "C18": ("model-based property testing (proptest): operation histories interpreted against std BTreeSet",
          "exploration over pairs of histories (0..40 ops) on three element types; invariants after every step and history-independence of ==, cmp, Hash",
          "trusted base: std BTreeSet as the model of a sorted set", "DESIGN.md §4 C18", E1),
- "C07": ("property-based testing / fuzzing (proptest): generated texts of 9 families under catch_unwind, plus size-stress and unusual-grammar inputs run in child processes (default stack, RLIMIT_AS) to observe aborts",
+ "C07": ("property-based testing / fuzzing (proptest): generated texts of 9 families under catch_unwind, plus size-stress and unusual-grammar inputs run in child processes (default stack, RLIMIT_AS) to observe aborts — against the release build of kiki and against a second, dev-profile build (unoptimised, debug assertions: the profile of build scripts)",
          "exploration: no panic / abort among generated texts reaching every pipeline stage, and among stress inputs at the stated size bounds; non-termination is not decidable by testing (watchdog => inconclusive)",
          "trusted base: catch_unwind + child-process exit status as the observation of panic/abort; reference front end only classifies cases", "DESIGN.md §4 C07, §9", "E1 + E4 child processes (harness/src/props/total.rs)"),
  "C14": ("property-based testing (proptest): metamorphic repetition — same text on the runner thread, on freshly spawned threads (fresh RandomState keys) and in fresh child processes",
@@ -103,7 +103,7 @@ def main():
             {"name": "E1", "path": "harness/src/engine.rs", "serves_properties": sorted(CHECKS), "kind_free_text": "sharded proptest TestRunner (16 shards, fixed seeds from VERIF_SEED), catch_unwind around kiki, automatic shrinking, replay files"},
             {"name": "E2", "path": "harness/src/e2.rs", "serves_properties": [p for p in ("C01", "C02", "C03", "C05", "C06") if p in CHECKS], "kind_free_text": "emitted text written verbatim, compiled with plain rustc (no cargo, no network) together with a generated client, run under RLIMIT_AS and a watchdog; scratch under /verif/.work removed per case"},
             {"name": "E3", "path": "harness/fuzz + harness/src/fuzzrun.rs + harness/src/fuzzapi.rs", "serves_properties": [p for p in ("C04", "C07", "C08", "C09", "C10", "C11", "C12", "C13", "C14", "C15", "C16", "C17", "C18") if p in CHECKS], "kind_free_text": "coverage-guided libFuzzer campaigns (cargo-fuzz targets text_frontend, raw_struct (bytes decoded into the raw value of the text generators), grammar_struct, oset_ops, hash_header; oracle inside the target; fixed work -runs/-seed; 8 processes); thorough tiers only"},
-            {"name": "E4", "path": "harness/src/props/total.rs", "serves_properties": [p for p in ("C07", "C14") if p in CHECKS], "kind_free_text": "the verif binary re-executes itself (`verif worker`) to observe aborts / stack overflows and fresh-process hash seeds"},
+            {"name": "E4", "path": "harness/src/props/total.rs", "serves_properties": [p for p in ("C07", "C14") if p in CHECKS], "kind_free_text": "the verif binary re-executes itself (`verif worker`) to observe aborts / stack overflows and fresh-process hash seeds; for C07 also a dev-profile build of the same binary (harness/target/debug/verif, built by check.sh)"},
         ],
         "checks": checks,
         "not_applicable": na,
